@@ -170,4 +170,49 @@ theorem log_applyMuts_append (w : World C Ev Er O T) (r : Option (Rec C Ev Er)) 
     (applyMuts w (r.toList.map .appendLog)).tasks = w.tasks := by
   cases r <;> simp [applyMuts, applyMut]
 
+/-! ### Histories -/
+
+theorem state_congr (sys : Sys S C Ev Er O T) (w w2 : World C Ev Er O T) (h : w.log = w2.log) :
+    state sys w = state sys w2 := by
+  simp [state, h]
+
+theorem rec?_congr (sys : Sys S C Ev Er O T) (w w2 : World C Ev Er O T) (c : C)
+    (h : w.log = w2.log) : rec? sys w c = rec? sys w2 c := by
+  unfold rec?
+  rw [state_congr sys w w2 h]
+
+/-- What a fault-free execution appends to the log depends on the log alone (not on the
+published-object set or the task queue). -/
+theorem exec_log_congr (sys : Sys S C Ev Er O T) (w w2 : World C Ev Er O T) (c : C)
+    (h : w.log = w2.log) : (exec sys w c).log = (exec sys w2 c).log := by
+  rw [exec_log, exec_log, h, rec?_congr sys w w2 c h]
+
+theorem crashAt_log_of_logged (sys : Sys S C Ev Er O T) (w : World C Ev Er O T) (c : C) (k : Nat)
+    (hl : logged sys w c k = true) : (crashAt sys w c k).log = (exec sys w c).log := by
+  have := (logged_iff sys w c k).mp hl
+  rcases crashAt_cases sys w c k with ⟨hk, _⟩ | ⟨_, h⟩
+  · omega
+  · rw [h]
+
+theorem crashAt_log_of_not_logged (sys : Sys S C Ev Er O T) (w : World C Ev Er O T) (c : C)
+    (k : Nat) (hl : logged sys w c k = false) : (crashAt sys w c k).log = w.log := by
+  rw [crashAt_log]
+  split
+  · rfl
+  · rename_i hk
+    have hk' : (pre sys w c).length < k := Nat.lt_of_not_le hk
+    cases hr : rec? sys w c with
+    | none => simp
+    | some r =>
+      have : logged sys w c k = true := (logged_iff sys w c k).mpr ⟨hk', by simp [hr]⟩
+      rw [this] at hl; cases hl
+
+theorem runClean_log_congr (sys : Sys S C Ev Er O T) (cs : List C) (w w2 : World C Ev Er O T)
+    (h : w.log = w2.log) : (runClean sys w cs).log = (runClean sys w2 cs).log := by
+  induction cs generalizing w w2 with
+  | nil => simpa [runClean] using h
+  | cons c cs ih =>
+    simp only [runClean, List.foldl_cons]
+    exact ih _ _ (exec_log_congr sys w w2 c h)
+
 end KM.Fault
